@@ -3,7 +3,7 @@
 From Coq Require Import ZArith List Bool Lia.
 Require Import Spec.Params Spec.Field Spec.Curve Spec.Bytes Spec.Sha256.
 Require Import Model.Base Model.Keys Model.Der Model.Ecdsa Model.S2c.
-Require Import Proofs.AdaptorProofs Proofs.S2cProofs.
+Require Import Proofs.MathFacts Proofs.EcdsaProofs Proofs.SecpConsts Proofs.Toy Proofs.AdaptorProofs Proofs.S2cProofs Proofs.S2cComplete.
 Import ListNotations.
 Local Open Scope Z_scope.
 Notation S := secp256k1.
@@ -133,3 +133,48 @@ Theorem opening_parse_rejects :
     s2c_opening_parse S (tag :: xs) = [AInt 0].
 Proof. exact (opening_parse_rejects S). Qed.
 Print Assumptions opening_parse_rejects.
+
+(* ---- completeness, under the mathematical premises about the curve (explicit hypotheses, not axioms) ---- *)
+(* [MF] Whenever the signing loop succeeds with opening Q and signature (r, s): the commitment
+   C = Q + H_point(Q || data)*G exists, is a curve point, and r = C.x mod n - for every fuel, counter, key, message. *)
+Theorem s2c_commit_verifies :
+  MathFacts S ->
+  forall fuel counter msg32 seckey ndata data32 d m r s Q,
+    s2c_sign_loop S fuel counter msg32 seckey ndata data32 d m = S2cOk r s Q ->
+    exists x y, ec_commit S midstate_s2c_point Q data32 = Some (Some (x, y)) /\ r = x mod cn S /\ oc S (Some (x, y)).
+Proof. intro MF. exact (s2c_loop_commits S MF). Qed.
+Print Assumptions s2c_commit_verifies.
+
+(* [MF] API level: the (signature, datum, opening) triple returned by s2c_sign passes verify_commit, provided the
+   opening object loads back as the point it was saved from (pk_load_pk_obj: true for every curve point with x <> 0). *)
+Theorem s2c_sign_commit_verifies :
+  MathFacts S ->
+  forall msg32 seckey data32 sig opening,
+    ecdsa_s2c_sign S msg32 seckey data32 true = [AInt 1; ABytes sig; ABytes opening] ->
+    exists Q, opening = pk_obj Q /\
+      (pk_load opening = Some Q -> ecdsa_s2c_verify_commit S sig data32 opening = [AInt 1]).
+Proof. intro MF. exact (s2c_sign_commit_verifies_fuel S MF (Z.lt_le_incl _ _ secp_p_lt_2_256) secp_n_lt_p sign_fuel). Qed.
+Print Assumptions s2c_sign_commit_verifies.
+Theorem opening_object_loads_back :
+  forall x y, oc S (Some (x, y)) -> x <> 0 -> pk_load (pk_obj (Some (x, y))) = Some (Some (x, y)).
+Proof. exact (pk_load_pk_obj S (Z.lt_le_incl _ _ secp_p_lt_2_256)). Qed.
+Print Assumptions opening_object_loads_back.
+
+(* [MF, InvFacts] the signature satisfies the ECDSA verification equation for the key d*G and message m *)
+Theorem s2c_sign_valid :
+  MathFacts S -> InvFacts S ->
+  forall fuel counter msg32 seckey ndata data32 d m r s Q,
+    0 < d < cn S -> 0 <= m < cn S ->
+    s2c_sign_loop S fuel counter msg32 seckey ndata data32 d m = S2cOk r s Q ->
+    sig_verify S r s (pmul S d (G S)) m = true.
+Proof. intros MF IF. exact (s2c_loop_sig_valid S MF secp_n_lt_p IF secp_p_lt_2n secp_G_inr). Qed.
+Print Assumptions s2c_sign_valid.
+
+(* the premises are satisfiable: on the toy curve y^2 = x^3 + 7 over F_43 they are PROVED, and the theorems hold there unconditionally *)
+Example premises_satisfiable : MathFacts toy /\ InvFacts toy.
+Proof. exact (conj toy_MathFacts toy_InvFacts). Qed.
+Example s2c_commit_verifies_toy :
+  forall fuel counter msg32 seckey ndata data32 d m r s Q,
+    s2c_sign_loop toy fuel counter msg32 seckey ndata data32 d m = S2cOk r s Q ->
+    exists x y, ec_commit toy midstate_s2c_point Q data32 = Some (Some (x, y)) /\ r = x mod cn toy /\ oc toy (Some (x, y)).
+Proof. exact (s2c_loop_commits toy toy_MathFacts). Qed.
